@@ -14,12 +14,6 @@ import (
 	"context"
 	"encoding/xml"
 	"fmt"
-	"go/ast"
-	"go/parser"
-	"go/printer"
-	"go/token"
-	"path/filepath"
-	"sort"
 	"strings"
 	"sync"
 	"time"
@@ -467,6 +461,88 @@ func (c *ctx) session(ns string, elements []string, progs []c08.Prog, class stri
 	}
 }
 
+// faulty runs several elements in one session whose connection refuses the write number
+// failAfter (counted from the start of Serve; every later one too unless once).  The encoder is
+// buffered, so a fault shows when a reply is flushed.  Property: a request whose reply did not
+// reach the peer is only acceptable when the stream is terminated - nothing after it is served
+// and Serve does not return nil.
+func (c *ctx) faulty(ns string, failAfter int, once bool, elements []string, progs []c08.Prog, class string) {
+	r := c.r
+	local, remote := c08.LocalJID, c08.RemoteJID
+	if ns == c08.NSServer {
+		local, remote = c08.LocalSrv, c08.RemoteSrv
+	}
+	body := []byte(strings.Join(elements, "") + "</stream:stream>")
+	toks := c08.Tokens(ns, body)
+	res := c08.ServeOpt(c08.Opts{FailAfter: failAfter, FailOnce: once}, ns, local, remote, body, progs, nil, nil)
+	line := strings.Join([]string{"servew", fmt.Sprint(failAfter), c08.NsField(ns), common.HexS(res.LocalBare), c08.JidMap(toks), common.EncToks(toks), c08.EncProgs(progs)}, " ")
+	lines := []string{r.Prop + " " + line, "#fault " + common.HexS(strings.Join(elements, "\x00")) + " " + common.B(once)}
+	if res.Stall || res.Panic != "" {
+		r.Line(line, "PANIC-OR-STALL")
+		r.Fail("no-panic", "fault-panic", lines, res.Panic)
+		return
+	}
+	els, _, _ := c08.Written(ns, res.Out)
+	wobs, _ := c08.WrittenObs(els)
+	cls := c08.ErrClass(res.Err)
+	r.Line(line, fmt.Sprintf("%d %s %s", len(res.Invs), wobs, cls))
+	r.Case(line, true, fmt.Sprintf("%s/fault-%d/%d/%s", class, failAfter, len(elements), cls))
+	var outEls []c08.Elem
+	for _, e := range els {
+		if !e.StreamError {
+			outEls = append(outEls, e)
+		}
+	}
+	// walk the served elements: what each step owed the peer (the handler's elements, plus
+	// the automatic error for an unanswered request); the first step whose output is not
+	// (completely) on the wire lost it
+	depth, k, cum := 0, 0, 0
+	for _, t := range toks {
+		switch tt := t.(type) {
+		case xml.StartElement:
+			if depth == 0 && k < len(res.Invs) {
+				p := c08.Prog{Ret: "ok"}
+				if k < len(progs) {
+					p = progs[k]
+				}
+				var w []xml.Token
+				for _, o := range p.Ops {
+					w = append(w, o.Write...)
+				}
+				hEls := splitTop(w)
+				id, typ := c08AttrVal(tt.Attr, "id"), c08AttrVal(tt.Attr, "type")
+				request := tt.Name.Local == "iq" && (tt.Name.Space == c08.NSClient || tt.Name.Space == c08.NSServer) && (typ == "get" || typ == "set") && id != ""
+				answered := false
+				for _, e := range hEls {
+					answered = answered || isReply(e, id, ns)
+				}
+				owes := len(hEls)
+				if request && !answered && p.Ret == "ok" {
+					owes++
+				}
+				cum += owes
+				if cum > len(outEls) {
+					if request && p.Ret == "ok" {
+						if len(res.Invs) != k+1 {
+							r.Fail("answered-or-terminated", "served-on-after-lost-reply", lines, fmt.Sprintf("the reply to request %d (id %q) did not reach the peer (%d elements on the wire, %d owed) but %d more elements were handled", k, id, len(outEls), cum, len(res.Invs)-k-1))
+						}
+						if cls == "clean" {
+							r.Fail("answered-or-terminated", "nil-after-lost-reply", lines, fmt.Sprintf("the reply to request %d (id %q) did not reach the peer and Serve returned nil", k, id))
+						}
+					}
+					return
+				}
+				k++
+			} else if depth == 0 {
+				k++
+			}
+			depth++
+		case xml.EndElement:
+			depth--
+		}
+	}
+}
+
 // pend is a local request that is waiting for its response while the peer's input is served.
 type pend struct {
 	id   string
@@ -688,71 +764,89 @@ func progVia(ws []string, id string, reads int, ret string, vias []int) c08.Prog
 	return p
 }
 
-// Facts regenerates lean/XmppModel/Generated/C07.lean from the AST of session.go: through what
-// every writing method of responseChecker (the TokenReadEncoder handed to handlers) sends its
-// tokens.
-func Facts(repo string) (string, error) {
-	fset := token.NewFileSet()
-	f, err := parser.ParseFile(fset, filepath.Join(repo, "session.go"), nil, 0)
+// ProbeToks is the token list of one probe shape: an element wrapped in `level` elements of
+// another namespace; nameC 0..4 = iq without namespace / jabber:client / jabber:server /
+// urn:other / a message; idC 0 = the request's id, 1 = another id, 2 = none; typC 0..5 = result,
+// error, get, set, none, an undefined type.  (Lean: Serve.probeToks.)
+func ProbeToks(level, nameC, idC, typC int) []xml.Token {
+	n := []xml.Name{name("iq"), {Space: c08.NSClient, Local: "iq"}, {Space: c08.NSServer, Local: "iq"}, {Space: "urn:other", Local: "iq"}, name("message")}[nameC]
+	id := []string{ProbeID, "other-" + ProbeID, "-"}[idC]
+	typ := []string{"result", "error", "get", "set", "-", "foo"}[typC]
+	ts := el(n, iqAttrs(id, typ))
+	for l := level; l > 0; l-- {
+		ts = el(xml.Name{Space: "urn:w", Local: fmt.Sprintf("w%d", l-1)}, nil, ts...)
+	}
+	return ts
+}
+
+// ProbeID is the id of the request of the detector probe.
+const ProbeID = "pq"
+
+// probeDetected runs one real session on the request `<iq type="get" id="pq" …>` whose handler
+// writes the tokens through the given method and reports whether the session took that for the
+// reply (nothing was added); ok = false when the run did not end the way a probe must.
+func probeDetected(via int, ts []xml.Token) (detected, ok bool) {
+	body := []byte(`<iq type="get" id="` + ProbeID + `" from="a@example.org/r"><q xmlns="urn:q"/></iq></stream:stream>`)
+	res := c08.Serve(c08.NSClient, c08.LocalJID, c08.RemoteJID, body, []c08.Prog{{Ret: "ok", Ops: []c08.Op{{Write: ts, Via: via}}}}, nil)
+	if res.Stall || res.Panic != "" || res.Err != nil || len(res.Invs) != 1 || len(res.Invs[0].WErr) != 0 {
+		return false, false
+	}
+	els, _, err := c08.Written(c08.NSClient, res.Out)
 	if err != nil {
-		return "", err
+		return false, false
 	}
-	src := func(n ast.Node) string {
-		var sb strings.Builder
-		_ = printer.Fprint(&sb, fset, n)
-		return sb.String()
+	switch len(els) {
+	case 1:
+		return true, true
+	case 2:
+		last := els[1]
+		return false, last.Local == "iq" && last.Typ == "error" && last.SU && last.ID == ProbeID
 	}
+	return false, false
+}
+
+// Facts regenerates lean/XmppModel/Generated/C07.lean by PROBING the real reply detector: real
+// sessions whose handler writes every shape of the finite domain nesting level 0..2 x 5 name
+// classes x 3 id classes x 6 type classes through every method of the encoder it is handed
+// (EncodeToken; Encode with a Marshaler / WriterTo / TokenReader / plain struct; EncodeElement
+// with a Marshaler / WriterTo), observing whether the session then adds its own reply.  No
+// source pattern is matched: the table survives any refactoring of responseChecker and changes
+// when a write path stops running the detector or the detector's predicate changes.
+func Facts(repo string) (string, error) {
 	var rows []string
-	for _, d := range f.Decls {
-		fd, ok := d.(*ast.FuncDecl)
-		if !ok || fd.Recv == nil || len(fd.Recv.List) != 1 || fd.Body == nil {
-			continue
-		}
-		if src(fd.Recv.List[0].Type) != "*responseChecker" || len(fd.Recv.List[0].Names) != 1 {
-			continue
-		}
-		recv := fd.Recv.List[0].Names[0].Name
-		// every call in the body that is handed a writer or is a method of one
-		var sinks []string
-		detector := false
-		ast.Inspect(fd.Body, func(n ast.Node) bool {
-			switch x := n.(type) {
-			case *ast.AssignStmt:
-				if len(x.Lhs) == 1 && src(x.Lhs[0]) == recv+".wroteResp" {
-					detector = true
-				}
-			case *ast.CallExpr:
-				fn := src(x.Fun)
-				switch {
-				case strings.HasPrefix(fn, "marshal.") && len(x.Args) > 0:
-					a := src(x.Args[0])
-					if a == recv {
-						a = "checker"
+	bad := false
+	for via := 0; via <= 6; via++ {
+		for level := 0; level <= 2; level++ {
+			for nameC := 0; nameC < 5; nameC++ {
+				for idC := 0; idC < 3; idC++ {
+					for typC := 0; typC < 6; typC++ {
+						// the whole domain through EncodeToken; through the other methods the
+						// part that decides whether the detector ran at all and at which level
+						if via != 0 && (level == 2 || nameC == 2 || nameC == 4 || idC == 2 || typC == 1 || typC == 3 || typC == 5) {
+							continue
+						}
+						ts := ProbeToks(level, nameC, idC, typC)
+						if !applicable(via, ts) {
+							continue
+						}
+						d, ok := probeDetected(via, ts)
+						if !ok {
+							bad = true
+						}
+						rows = append(rows, fmt.Sprintf("(%d, %d, %d, %d, %d, %v)", via, level, nameC, idC, typC, d))
 					}
-					sinks = append(sinks, fn+"("+a+")")
-				case strings.HasSuffix(fn, ".EncodeToken") || strings.HasSuffix(fn, ".Encode") || strings.HasSuffix(fn, ".EncodeElement"):
-					sinks = append(sinks, strings.Replace(fn, recv+".", "checker.", 1))
 				}
 			}
-			return true
-		})
-		if len(sinks) == 0 {
-			continue
 		}
-		if detector {
-			sinks = append([]string{"detector"}, sinks...)
-		}
-		rows = append(rows, fmt.Sprintf("(%q, %q)", fd.Name.Name, strings.Join(sinks, " ")))
 	}
-	sort.Strings(rows)
 	var sb strings.Builder
-	sb.WriteString("-- GENERATED by `harness facts C07` from the AST of session.go; do not edit.\n")
+	sb.WriteString("-- GENERATED by `harness facts C07` (real sessions probing the reply detector); do not edit.\n")
 	sb.WriteString("namespace XmppModel.Generated.C07\n\n")
-	sb.WriteString("/-- every method of `responseChecker` that writes, and where its tokens go: `checker` = back\nthrough the checker's own `EncodeToken` (which runs the reply detector), `checker.TokenWriter` =\nstraight to the session's writer -/\n")
-	if len(rows) == 0 {
-		sb.WriteString("def writePaths : Option (List (String × String)) := none\n")
+	sb.WriteString("/-- (write method, nesting level, name class, id class, type class, did the session take what the\nhandler wrote for the reply) for every probed shape; methods: 0 EncodeToken, 1-4 Encode(Marshaler /\nWriterTo / TokenReader / struct), 5-6 EncodeElement(Marshaler / WriterTo) -/\n")
+	if bad || len(rows) == 0 {
+		sb.WriteString("def detectorProbe : Option (List (Nat × Nat × Nat × Nat × Nat × Bool)) := none\n")
 	} else {
-		sb.WriteString("def writePaths : Option (List (String × String)) := some [\n  " + strings.Join(rows, ",\n  ") + "]\n")
+		sb.WriteString("def detectorProbe : Option (List (Nat × Nat × Nat × Nat × Nat × Bool)) := some [\n  " + strings.Join(rows, ",\n  ") + "]\n")
 	}
 	sb.WriteString("\nend XmppModel.Generated.C07\n")
 	return sb.String(), nil
@@ -802,6 +896,28 @@ func Run(r *common.Run) error {
 					return err
 				}
 				c.pending(ns, ps, strings.Split(string(sb), "\x00"), progs, "replay")
+				continue
+			}
+			if len(f) == 3 && f[0] == "#fault" && i > 0 {
+				sb, err := common.UnHex(f[1])
+				if err != nil {
+					return err
+				}
+				g := strings.Fields(lines[i-1])
+				if len(g) < 8 {
+					continue
+				}
+				ns := c08.NSClient
+				if g[3] == "s" {
+					ns = c08.NSServer
+				}
+				fa := 0
+				fmt.Sscanf(g[2], "%d", &fa)
+				ps, err := c08.DecProgs(g[7])
+				if err != nil {
+					return err
+				}
+				c.faulty(ns, fa, f[2] == "1", strings.Split(string(sb), "\x00"), ps, "replay")
 				continue
 			}
 			if len(f) == 2 && f[0] == "#session" && i > 0 {
@@ -965,6 +1081,89 @@ func Run(r *common.Run) error {
 	}
 	r.Exhaustive = append(r.Exhaustive, fmt.Sprintf("incoming element (7 names incl. both stanza namespaces x 6 types x 3 from values x %d payload shapes) x every single handler write out of %d x 3 modes; every ordered pair of writes for get/set requests", len(payloads), len(writeNames)))
 
+	// handlers that edit the start element they were handed in place (it is a pointer to the
+	// serve loop's own variable): type, name, id, all attributes; then write nothing, a
+	// non-reply, or a reply.  What the session owes the peer is decided by what the peer sent.
+	for _, ns := range []string{c08.NSClient, c08.NSServer} {
+		for _, typ := range []string{"get", "set", "result", "-"} {
+			for _, l := range locals[:4] {
+				if l.ns != "" && typ != "get" {
+					continue
+				}
+				for _, from := range []string{"a@example.org/r", "-"} {
+					e := element(l.local, l.ns, "mu", typ, from, "-", "", payloads[0])
+					for mut := 1; mut <= c08.MutMax; mut++ {
+						for wi, ws := range [][]string{nil, {"otherid"}, {"result"}, {"message"}} {
+							for _, m := range []string{"d", "r"} {
+								if m == "r" && (wi%2 == 1 || from == "-") {
+									continue
+								}
+								p := progOf(ws, "mu", wi, "ok")
+								p.Mut = mut
+								c.check(ns, m, e, p, "exhaustive-edit")
+							}
+						}
+					}
+				}
+			}
+		}
+	}
+
+	// the connection refuses a write: sessions of 1..4 elements, the fault at every write
+	// (each flush of a reply / of what a handler wrote, the closing tag), one refused write or
+	// all from then on
+	{
+		reqA := element("iq", "", "wa", "get", "a@example.org/r", "-", "", payloads[0])
+		reqB := element("iq", "", "wb", "set", "-", "-", "", payloads[3])
+		msg := `<message id="wm"><body>x</body></message>`
+		prs := `<presence id="wp"/>`
+		resI := element("iq", "", "wr", "result", "-", "-", "", "")
+		seqs := [][]string{{reqA}, {reqA, msg, prs}, {msg, reqA, msg}, {reqA, reqB, msg}, {msg, prs}, {resI, reqB, prs, reqA}}
+		nop := c08.Prog{Ret: "ok"}
+		for _, ns := range []string{c08.NSClient, c08.NSServer} {
+			for si, seq := range seqs {
+				for variant := 0; variant < 5; variant++ {
+					progs := make([]c08.Prog, len(seq))
+					for k := range progs {
+						progs[k] = nop
+						id := []string{"wa", "wb", "wm", "wp", "wr"}[0]
+						switch {
+						case strings.Contains(seq[k], `id="wa"`):
+							id = "wa"
+						case strings.Contains(seq[k], `id="wb"`):
+							id = "wb"
+						}
+						switch variant {
+						case 1: // every handler answers / writes a message
+							if strings.Contains(seq[k], "<iq") {
+								progs[k] = progOf([]string{"result"}, id, 1, "ok")
+							} else {
+								progs[k] = progOf([]string{"message"}, id, 0, "ok")
+							}
+						case 2: // messages are echoed, requests left to the session
+							if !strings.Contains(seq[k], "<iq") {
+								progs[k] = progOf([]string{"message"}, id, 1, "ok")
+							}
+						case 3: // a non-reply is written for requests
+							if strings.Contains(seq[k], "<iq") {
+								progs[k] = progOf([]string{"otherid"}, id, 0, "ok")
+							}
+						case 4: // the last handler fails after writing
+							if k == len(seq)-1 {
+								progs[k] = progOf([]string{"message"}, id, 0, []string{"fail", "streamerr", "wrapeof"}[si%3])
+							}
+						}
+					}
+					for fa := 0; fa <= len(seq)+1; fa++ {
+						for _, once := range []bool{false, true} {
+							c.faulty(ns, fa, once, seq, progs, "exhaustive-fault")
+						}
+					}
+				}
+			}
+		}
+	}
+
 	// several elements in one session: requests with distinct (and sometimes equal) ids,
 	// replies, other stanzas; handlers that answer their own request, an earlier or a later one
 	rndS := r.Rnd.Fork()
@@ -1013,9 +1212,16 @@ func Run(r *common.Run) error {
 			if rndS.Chance(1, 12) {
 				p.Ret = []string{"fail", "eof", "stanzaerr", "streamerr", "wrapeof", "wrapueof", "wrapstanza", "wrapstream", "joineof"}[rndS.Intn(9)]
 			}
+			if rndS.Chance(1, 6) {
+				p.Mut = 1 + rndS.Intn(c08.MutMax)
+			}
 			progs = append(progs, p)
 		}
-		c.session(ns, elements, progs, "session")
+		if rndS.Chance(1, 6) {
+			c.faulty(ns, rndS.Intn(cnt+2), rndS.Chance(1, 2), elements, progs, "session")
+		} else {
+			c.session(ns, elements, progs, "session")
+		}
 	}
 
 	// pending local requests: 0..2 SendIQ calls outstanding x incoming IQs of every type with
